@@ -1,8 +1,8 @@
 #!/verif/.venv/bin/python
 # Replay of a solver counterexample against the unmodified code (no shims).
-# property=C12 kernel=coords label=k1:accepted_register_fits
+# property=C12 kernel=layout_sym label=k2:layout_keeps_every_trap
 import sys
 sys.path[:0] = ['/repo' + "/pulser-core", '/repo' + "/pulser-simulation", "/verif"]
 from symx.replay import replay
-sys.exit(replay(check='checks.c12', kernel='coords', shape={'dims': 3, 'n': 1, 'nsym': 1, 'mind': False, 'maxr': True, 'maxn': False},
-                assignment={'max_radial_distance': '1023/1024', 'x0_0': '60/1', 'x0_1': '1/1024', 'x0_2': '1/1024'}, label='k1:accepted_register_fits'))
+sys.exit(replay(check='checks.c12', kernel='layout_sym', shape={'mind': 0.0, 'range': 1e-05},
+                assignment={'tx': -5, 'ty': -5}, label='k2:layout_keeps_every_trap'))
